@@ -28,7 +28,13 @@ func (c *fctx) call(t *ast.CallExpr) string {
 		if v, ok := c.info.Uses[id].(*types.Var); ok && c.x.kindOf(v.Type()) == kFunc {
 			s := c.varName(v)
 			for _, a := range t.Args {
+				if isContext(c.typeOf(a)) {
+					continue
+				}
 				s += " " + c.expr(a)
+			}
+			if effectfulCallback(v.Type()) {
+				c.fi.effectful = true
 			}
 			return "(← " + s + ")"
 		}
@@ -73,6 +79,20 @@ func (c *fctx) call(t *ast.CallExpr) string {
 		return "(" + arg(0) + " == " + arg(1) + ")"
 	case "bytes.HasPrefix":
 		return "(Go.hasPrefix " + arg(0) + " " + arg(1) + ")"
+	case "math/rand.Perm":
+		return c.oracle("(List Int)") // trusted: a permutation of 0..n-1 (a hypothesis of the theorems that need it)
+	case "(time.Time).Add":
+		return "(" + recv() + " + " + arg(0) + ")"
+	case "(time.Time).After":
+		return "(decide (" + recv() + " > " + arg(0) + "))"
+	case "(time.Time).Before":
+		return "(decide (" + recv() + " < " + arg(0) + "))"
+	case "time.Unix":
+		return "(" + arg(0) + " * (1000000000 : Int) + " + arg(1) + ")"
+	case "(*" + modPath + "lib/server/ipdb/clients.client).Uip":
+		return fmt.Sprintf("(← Go.refUip %s %s)", recv(), c.site(t.Pos()))
+	case "(*" + modPath + "lib/server/ipdb/clients.client).LeasedUntil":
+		return fmt.Sprintf("(← Go.refLeasedUntil %s %s)", recv(), c.site(t.Pos()))
 	case "math/rand.Uint32":
 		return c.oracle("UInt32")
 	case "math/rand.Int63n":
